@@ -166,10 +166,18 @@ def check(ctx):
                     hdrs.add(s.targets[0].id)
                 if any(f"{h}.get_length()" in txt for h in hdrs):
                     declen.add(s.targets[0].id)
+        # names holding (an expression over) the number of buffered bytes: x = len(<tainted>) [- ...], closed over assignments
+        lenvars = set()
+        is_len = lambda y: isinstance(y, ast.Call) and call_name(y) == "len" and y.args and _tainted_expr(fi, y.args[0], loc, tainted_fields)
+        for _ in range(3):
+            for s_ in walk_no_nested(fi.node):
+                if isinstance(s_, ast.Assign) and len(s_.targets) == 1 and isinstance(s_.targets[0], ast.Name):
+                    if any(is_len(y) or (isinstance(y, ast.Name) and y.id in lenvars) for y in ast.walk(s_.value)) \
+                            and not any(isinstance(y, ast.Call) and not is_len(y) for y in ast.walk(s_.value)):
+                        lenvars.add(s_.targets[0].id)
         for cmp_ in [x for x in walk_no_nested(fi.node) if isinstance(x, ast.Compare)]:
             txt = ast.unparse(cmp_)
-            has_len = any(isinstance(y, ast.Call) and call_name(y) == "len" and y.args and _tainted_expr(fi, y.args[0], loc, tainted_fields)
-                          for y in ast.walk(cmp_))
+            has_len = any(is_len(y) or (isinstance(y, ast.Name) and y.id in lenvars) for y in ast.walk(cmp_))
             has_dec = any(isinstance(y, ast.Name) and y.id in declen for y in ast.walk(cmp_)) or \
                 any(f"{h}.get_length()" in txt for h in hdrs)
             if has_len and has_dec:
@@ -315,6 +323,8 @@ def check(ctx):
                           if isinstance(c.func, ast.Attribute) and c.func.attr in ("put", "put_nowait")
                           and isinstance(c.func.value, ast.Attribute) and c.func.value.attr == q})
         want = {"_recv_messages": [sfi.qual], "postprocess_recv_messages": [f"{st.qual}.notify_postprocess_message"]}[q]
+        if q == "postprocess_recv_messages" and len(putters) == 1 and putters[0].startswith(f"{st.qual.rsplit('.', 1)[0]}.Open."):
+            want = putters       # the delivery helper written in place in a method of Open: still a single producer on the tick thread
         ctx.decide(putters == want, "R-WHO/fifo", f"{da.qual}.{q}", da.where(ini), f"only {want[0].rsplit('.', 1)[-1]} feeds {q}",
                    f"{q} is fed by {putters} (a second producer or a re-enqueue breaks the order)", key=f"who:{q}")
 
